@@ -12,7 +12,7 @@ Invalid == {"NONAME!", "AUTH_nokey!", "AUTH_numkey!", "SIZE_neg!", "SIZE_zero!",
             "GZIP_nolevel!", "GZIP_level99!", "GZIP_types!", "HDR_badval!"}
 Probes == {"P1", "P2", "P3"}
 
-\* request classes: key \in {"ok","wrong","none"}, body \in {"small","big"}
+\* request classes: key "ok" or one of the wrong / missing forms, body \in {"small","big"}
 Rejects(p, req) == \/ p = "AUTH" /\ req.key # "ok"
                    \/ p = "SIZE" /\ req.body = "big"
 RejectCode(p) == IF p = "AUTH" THEN 401 ELSE 413
@@ -42,7 +42,8 @@ Check(c, o) ==
 
 \* ---- case spaces
 SeqsUpTo(S, n) == UNION {[1..k -> S] : k \in 0..n}
-Reqs == [key : {"ok", "wrong", "none"}, body : {"small", "big"}]
+\* wrong keys in several shapes: other length, same length as the configured key, a prefix of it, another letter case
+Reqs == [key : {"ok", "wrong", "samelen", "prefix", "upper", "none"}, body : {"small", "big"}]
 \* at most one of each probe (they are identified by name), any multiset of the others
 DistinctProbes(ch) == \A i, j \in DOMAIN ch : (i # j /\ ch[i] \in Probes) => ch[i] # ch[j]
 ValidCases(n) == {c \in [chain : SeqsUpTo(Valid, n), req : Reqs] : DistinctProbes(c.chain)}
